@@ -258,3 +258,5 @@ b("upgrad-loop-position-weighted", ["C10"], "@seed", _os.path.join(_PD, "upgrad-
 b("upgrad-loop-store-at-zero", ["C10"], "@seed", _os.path.join(_PD, "upgrad-loop-store-at-zero.diff"), "", "u[0] = weight: every weight lands on the first row")
 # pdist scattered through triu_indices (see seeded_keep/C16-r8K1; the tril twin is seeded/C10-r11B)
 b("krum-pdist-upper-half-only", ["C10"], "@seed", _os.path.join(_PD, "krum-pdist-upper-half-only.diff"), "", "only the upper triangle receives the distances")
+# a sum accumulated in a loop that can be left early is a sum over a prefix of the rows (see seeded/C10-r9C for `length = length + ...`): the `+=` spelling
+b("config-length-break-augmented", ["C10"], "@seed", _os.path.join(_PD, "config-length-break-augmented.diff"), "", "rows after the first zero gradient no longer contribute")
